@@ -217,14 +217,14 @@ def units(tier):
 
 
 META = {
-    "level": "proof",
+    "level": "other",
     "explanation": "Lag-index function proved (irregular lags unbounded up to a lag-count cap; regular lags for bounded magnitudes).",
     "trusted_base": ["CBMC 6.11", "cvc5 floating-point theory"],
     "assumptions": [],
     "not_covered": ["accumulation arithmetic (_evaluate*, _rescale, _centerCovariance)", "BiTargetCheck geometry", "grid algorithm", "sort order of rindex"],
 }
 MANIFEST = {
-    "category": "proof",
+    "category": "other",
     "text": "Contracts on the lag-index function (half-open disjoint classes; tolerance rule) and on the pair-enumeration skeleton of the general algorithm.",
     "note": "Accumulation arithmetic and geometry checkers are not claimed.",
     "design_ref": "DESIGN.md 3 C12",
